@@ -32,7 +32,8 @@ TraceNext ==
               /\ known' = now
     /\ UNCHANGED bvars
 
-TraceInit == InitB /\ l = 1 /\ bad = {} /\ known = {}
+(* one initial state (InitB leaves trackann open: it is a field of every recorded step here) *)
+TraceInit == InitB /\ trackann = FALSE /\ l = 1 /\ bad = {} /\ known = {}
 TraceSpec == TraceInit /\ [][TraceNext]_<<bvars, l, bad, known>>
 Result == l = Len(Trace) + 1 => PrintT(<<"RESULT", ToJson([n |-> l - 1, bad |-> bad])>>)
 =============================================================================
